@@ -81,8 +81,9 @@ def run(c):
         raise Infra("case generator failed:\n" + res.out[-2000:])
     c.cov["states"] += res.distinct; c.cov["transitions"] += res.generated
     cases = [json.loads(json.loads(ln)) for ln in res.printed if ln.startswith('"{')]
-    if len(cases) != res.distinct or len(cases) < 20000:
-        raise Infra("case list incomplete: %d printed, %d distinct states" % (len(cases), res.distinct))
+    announced = sum(int(parse_tla_tuple(ln)[2]) for ln in res.printed if ln.startswith('<<"COUNT"'))
+    if len(cases) != announced or len(cases) < 20000:
+        raise Infra("case list incomplete: %d printed, %d announced by the generator" % (len(cases), announced))
     cases.sort(key=lambda x: (x["h"], len(x["in"]), x["in"]))
     c.cov["generated_cases"] = len(cases)
     drv = c.build_driver("helpers14")
@@ -102,7 +103,46 @@ def run(c):
     ev1, r1 = run_parts(c, drv, "replay", [cp, "@OUT"], "replay", env)
     ev2, r2 = run_parts(c, drv, "record", ["@OUT"], "record", env)
     ev3, r3 = run_parts(c, drv, "sweep", ["@OUT"], "sweep", env)
-    c.cov["driver_restarts_after_hang"] = r1 + r2 + r3
+    # ---- reused values: stage A of the value-with-contents model; its exhaustive graph prints every ordered pair
+    # of pool contents x ways of storing them; each pair becomes a history on ONE value, plus seeded long histories
+    resO = c.stage_a(sd, "MC_C14obj", "MC_C14obj", timeout=900, workers=4)
+    pairs = [json.loads(json.loads(ln)) for ln in resO.printed if ln.startswith('"{')]
+    if len(pairs) < 1500:
+        raise Infra("pair generator incomplete: %d pairs" % len(pairs))
+    pairs.sort(key=lambda x: json.dumps(x, sort_keys=True))
+    getters_of = {"MobileIdentity5GS": sorted(GETTERS), "DNN": ["DNN.GetDNN"], "RequestedNSSAI": ["RequestedNssaiToModels"]}
+    rng = c.rng
+
+    def all_gets(kind):
+        g = list(getters_of[kind]); k = rng.randrange(len(g))
+        g = g[k:] + g[:k]
+        if rng.random() < 0.5: g.reverse()
+        return [dict(op="Get", h=x) for x in g]
+    hists = []
+    for pr in pairs:
+        hists.append(dict(obj=pr["obj"], steps=[dict(op="Set", mode=pr["m1"], **{"in": pr["c1"]})] + all_gets(pr["obj"]) +
+                          [dict(op="Set", mode=pr["m2"], **{"in": pr["c2"]})] + all_gets(pr["obj"])))
+    n_pair_hists = len(hists)
+    pools = {k: [] for k in getters_of}
+    for pr in pairs:
+        for cc in (pr["c1"], pr["c2"]):
+            if cc not in pools[pr["obj"]]: pools[pr["obj"]].append(cc)
+    gen_pool = {"MobileIdentity5GS": [x["in"] for x in cases if x["h"] in ("GetMobileIdentity", "GetSUCI") and len(x["in"]) <= 255],
+                "DNN": [x["in"] for x in cases if x["h"] == "DNN.GetDNN" and len(x["in"]) <= 255],
+                "RequestedNSSAI": [x["in"] for x in cases if x["h"] == "RequestedNssaiToModels" and len(x["in"]) <= 255]}
+    for k in range(400 if thorough else 90):
+        kind = ("MobileIdentity5GS", "MobileIdentity5GS", "DNN", "RequestedNSSAI")[k % 4]
+        steps = []
+        for _ in range(rng.randint(8, 20)):
+            src = pools[kind] if rng.random() < 0.6 else gen_pool[kind]
+            steps.append(dict(op="Set", mode=rng.choice(["buffer", "setters"]), **{"in": rng.choice(src)}))
+            for _ in range(rng.randint(1, 4)):
+                steps.append(dict(op="Get", h=rng.choice(getters_of[kind])))
+        hists.append(dict(obj=kind, steps=steps))
+    hp = os.path.join(c.scratch, "hists.json"); json.dump(hists, open(hp, "w"))
+    hist_events, r4 = run_parts(c, drv, "hist", [hp, "@OUT"], "hist", env)
+    c.cov["reuse_histories"] = len(hists); c.cov["reuse_pair_histories"] = n_pair_hists
+    c.cov["driver_restarts_after_hang"] = r1 + r2 + r3 + r4
     events = probe_events + ev1 + ev2 + ev3
     # chunk events cost ~256 class evaluations each: spread them evenly over the shards
     nsh = 12 if thorough else 8
@@ -114,6 +154,21 @@ def run(c):
     events = order
     # ---- stage C
     mism = c.validate("Trace_C14", events, shards=nsh, timeout=3000)
+    # histories are stateful (current contents): shards are cut at TraceReset only
+    n_stateless = len(events)
+    mism += [(n_stateless + i, t) for i, t in c.validate("Trace_C14", hist_events, shards=(8 if thorough else 6), stateful=True, timeout=3000)]
+    events = events + hist_events
+
+    def history_of(idx):
+        """(kind, steps up to and including event idx, current contents) of the history event idx belongs to"""
+        lo = idx
+        while not events[lo].startswith('{"op":"TraceReset"'): lo -= 1
+        steps, kind, cur = [], "", []
+        for ln in events[lo + 1:idx + 1]:
+            x = json.loads(ln)
+            if x["op"] == "Set": steps.append(dict(op="Set", mode=x["cls"], **{"in": x["in"]})); kind, cur = x["h"], x["in"]
+            elif x["op"] == "Get": steps.append(dict(op="Get", h=x["h"]))
+        return kind, steps, cur
     evals = skipped = 0
     distinct = 0
     digested = set()
@@ -132,17 +187,27 @@ def run(c):
             if e["cls"] == "skipped": skipped += 1
             else: evals += 1
             if e["in"]: c.count_distinct((e["h"], tuple(e["in"])))
+        elif ln.startswith('{"op":"Get"'):
+            evals += 1
+    # distinct reuse situations: (getter, previous contents, current contents) triples of the histories
+    prevc, curc = (), ()
+    for ln in hist_events:
+        if ln.startswith('{"op":"TraceReset"'): prevc, curc = (), ()
+        elif ln.startswith('{"op":"Set"'): prevc, curc = curc, tuple(json.loads(ln)["in"])
+        elif ln.startswith('{"op":"Get"'): c.count_distinct(("reuse", json.loads(ln)["h"], prevc, curc))
     c.cov["skipped_recorded_hang_class"] = skipped
     # MISMATCH lines are <<"MISMATCH", l, kind, class, count, first>>; helper, frame and panic text come from the event
     def sig_of(e, t):
         """(fn, kind) of the panic a line talks about"""
         if t[2] not in ("PANIC", "INFO"): return ("", "")
-        if e["op"] == "Call": return (e["fn"], e["kind"])
+        if e["op"] in ("Call", "Get"): return (e["fn"], e["kind"])
         if e["op"] == "Digest": sg = e["sigs"][int(t[5]) - 1]
         else: sg = e["sigs"][e["codes"][int(t[5])] - 10]
         return (sg["fn"], sg["kind"])
 
-    def input_of(e, t):
+    def input_of(e, t, idx=None):
+        if e["op"] == "Get":
+            return history_of(idx)[2]
         if e["op"] == "Digest":
             return e["sigs"][int(t[5]) - 1]["ex"] if t[2] in ("PANIC", "INFO") else e["in"]
         return element(e, int(t[5]))
@@ -168,14 +233,35 @@ def run(c):
     def key_of(idx, t):
         e = json.loads(events[idx])
         fn, kd = sig_of(e, t)
-        return (opname(e["h"]), t[3] or ("%s:%s:%s" % (t[2].lower(), fn, kd)))
+        return (opname(e["h"]), t[3] or ("%s%s:%s:%s" % ("reused-value:" if e["op"] == "Get" else "", t[2].lower(), fn, kd)))
     # reproduce (at most two per class) in ONE fresh driver run; hangs each in their own process
     todo, seen = [], {}
     for idx, t in verdicts:
         k = key_of(idx, t); seen[k] = seen.get(k, 0) + 1
         if seen[k] <= 2: todo.append((idx, t))
     confirmed = {}
-    pan = [(idx, t) for idx, t in todo if t[2] == "PANIC"]
+    # ... a panic inside a history: replay that history (up to the failing step) on a fresh value in a fresh process
+    hpan = [(idx, t) for idx, t in todo if t[2] == "PANIC" and events[idx].startswith('{"op":"Get"')]
+    if hpan:
+        hs2 = []
+        for idx, t in hpan:
+            kind, steps, _ = history_of(idx)
+            hs2.append(dict(obj=kind, steps=steps))
+        p = os.path.join(c.scratch, "confirm-hist.json"); json.dump(hs2, open(p, "w"))
+        o = os.path.join(c.scratch, "confirm-hist.ndjson")
+        c.run_driver(drv, ["hist", p, o], env={"VERIF_C14_SKIPHANG": "0"})
+        evs = read_ndjson(o)
+        again = {i: tt for i, tt in c.validate("Trace_C14", evs, shards=1, stateful=True)}
+        c.cov["traces_validated_against_impl"] -= len(evs)
+        ends, k = [], -1
+        for hh in hs2:
+            k += 1 + len(hh["steps"]); ends.append(k)          # index of the last event of each replayed history
+        if len(evs) != k + 1:
+            raise Infra("history confirmation produced %d events, expected %d" % (len(evs), k + 1))
+        for (idx, t), endi in zip(hpan, ends):
+            tt = again.get(endi); e2 = json.loads(evs[endi])
+            confirmed[idx, tuple(t)] = bool(tt) and tt[2] == "PANIC" and tt[3] == t[3] and (e2["fn"], e2["kind"]) == sig_of(json.loads(events[idx]), t)
+    pan = [(idx, t) for idx, t in todo if t[2] == "PANIC" and not events[idx].startswith('{"op":"Get"')]
     if pan:
         cs = []
         for idx, t in pan:
@@ -198,16 +284,23 @@ def run(c):
         e = json.loads(events[idx])
         if e["text"]:
             raise Infra("hang on a text helper: extend the probe sub-command")     # not expected; probe takes octets
-        hx = "".join("%02x" % x for x in input_of(e, t))
+        hx = "".join("%02x" % x for x in input_of(e, t, idx))
         o = os.path.join(c.scratch, "confirm-hang-%d.ndjson" % idx)
         r = c.run_driver(drv, ["probe", o, e["h"], hx], timeout=60, check=False)
         confirmed[idx, tuple(t)] = r.returncode == 7 and any('"cls":"hang"' in x for x in read_ndjson(o))
 
     def classify(idx, t):
         e = json.loads(events[idx])
-        inp = input_of(e, t)
+        inp = input_of(e, t, idx)
         fn, kd = sig_of(e, t)
         op, cls = key_of(idx, t)
+        if e["op"] == "Get":
+            kind, steps, cur = history_of(idx)
+            sets = [x["in"] for x in steps if x["op"] == "Set"]
+            what = "%s on a reused %s value holding %s (held %s before; step %d of the history) panics in %s: %s" % (
+                op, kind, json.dumps(cur)[:120], json.dumps(sets[-2])[:120] if len(sets) > 1 else "nothing", len(steps), fn, kd)
+            return (op, cls, what, dict(history=dict(obj=kind, steps=steps), observed=dict(kind=t[2], fn=fn, panic=kd),
+                                        how="driver helpers14 hist [ {obj,steps} ] out.ndjson; validate with spec/trace/Trace_C14 (stateful)"))
         what = "%s(%s%s) %s%s; %d such input(s) in this event" % (
             op, "text " if e["text"] else "", json.dumps(inp)[:160],
             "does not return within 2 s" if t[2] == "HANG" else "panics in %s: %s" % (fn, kd),
@@ -221,7 +314,7 @@ def run(c):
     c.cov["evaluations"] = evals
     c.cov["distinct_nontrivial"] = len(c._distinct) + distinct
     c.cov["rule"] = ("cases = helper calls on the real library; distinct non-trivial = distinct (helper, non-empty input) pairs: single calls (%d) + "
-                     "inputs of exhaustive chunks and digests (%d; sampled length-3 chunks inside a digested range not counted twice)" % (len(c._distinct), distinct))
+                     "inputs of exhaustive chunks and digests (%d; sampled length-3 chunks inside a digested range not counted twice); reuse histories count as distinct (getter, previous contents, current contents) triples" % (len(c._distinct), distinct))
     c.cov["exhaustive"] = True
     c.cov["helpers"] = 37
     for i in (0, len(events) // 2, len(events) - 1):
@@ -230,6 +323,7 @@ def run(c):
     c.assumptions += [
         "contents reach the helpers as the decoders deliver them: RequestedNSSAI / DNN / MobileIdentity5GS with Len = number of octets (<= 255 for 8-bit length IEs), slices with capacity = length",
         "exhaustive: all octet strings of length 0..2 per helper; length 3: %s; texts: all strings of length 0..6 over {0,9,a,F,g,e-acute}" % ("all 16 777 216" if thorough else "first octet over 16 boundary values x all 65 536 continuations, plus seeded chunks"),
+        "reused values: %d histories on one MobileIdentity5GS / DNN / RequestedNSSAI value (every ordered pair of the specification's pool contents x {assign Len+Buffer, SetLen+setter}, all getters after each Set, plus seeded long histories); Len is always kept equal to the number of octets" % len(hists),
         "a call counts as not returning after 2 s without progress or when the process heap exceeds 1 GiB",
         "inputs of the recorded LadnToModels hang class are skipped after three probes confirmed the class in this run" if skip else "no hang class skipped in this run",
     ]
